@@ -21,20 +21,23 @@
 (*   Done      exit 0                                                      *)
 (*                                                                         *)
 (* A configuration fixes the condition of every input and output; the      *)
-(* state records the stage, the files written so far, whether the report   *)
-(* was printed, the exit code (-1 while running) and whether an error was  *)
-(* reported.  Area / k_exp / RED1 / RED2 resolution is spec/Cli.tla.       *)
+(* state records the stage, the files written so far, the output paths     *)
+(* that still hold the document of an earlier run (`stale`: a path can     *)
+(* exist before the run - writing REPLACES what it held), whether the      *)
+(* report was printed, the exit code (-1 while running) and whether an     *)
+(* error was reported.  Area / k_exp / RED1 / RED2 resolution is           *)
+(* spec/Cli.tla.                                                           *)
 (***************************************************************************)
 EXTENDS ProgramDefs
 
-VARIABLES cfg, pc, written, printed, exit, reported
-vars == <<cfg, pc, written, printed, exit, reported>>
+VARIABLES cfg, pc, written, stale, printed, exit, reported
+vars == <<cfg, pc, written, stale, printed, exit, reported>>
 
 Running == exit = -1
 
 End(code) == /\ exit' = code /\ reported' = (code # 0) /\ pc' = "ended"
-             /\ UNCHANGED <<cfg, written, printed>>
-Goto(stage) == pc' = stage /\ UNCHANGED <<cfg, written, printed, exit, reported>>
+             /\ UNCHANGED <<cfg, written, stale, printed>>
+Goto(stage) == pc' = stage /\ UNCHANGED <<cfg, written, stale, printed, exit, reported>>
 
 Args == pc = "args" /\ IF ParserRefuses(cfg) THEN End(1) ELSE Goto("license")
 License == pc = "license" /\ IF cfg.license THEN End(0) ELSE Goto("comps")
@@ -52,7 +55,9 @@ Factors ==
 Save(o, next) ==
   /\ pc = o
   /\ IF cfg.out[o] = "nodir" THEN End(73)
-     ELSE /\ written' = (IF cfg.out[o] = "ok" THEN written \cup {o} ELSE written)
+     ELSE /\ written' = (IF cfg.out[o] \in Writable THEN written \cup {o} ELSE written)
+          \* the file is created anew: nothing of what the path held before is left
+          /\ stale' = (IF cfg.out[o] \in Writable THEN stale \ {o} ELSE stale)
           /\ pc' = next /\ UNCHANGED <<cfg, printed, exit, reported>>
 Eval ==
   /\ pc = "eval"
@@ -60,10 +65,10 @@ Eval ==
      ELSE IF cfg.comps = "needsfactor" /\ cfg.fsrc = "fileincomplete" THEN End(65)
      ELSE Goto("json")
 \* the plain report goes to stdout between --xml and --txt
-Print == pc = "print" /\ printed' = TRUE /\ pc' = "txt" /\ UNCHANGED <<cfg, written, exit, reported>>
+Print == pc = "print" /\ printed' = TRUE /\ pc' = "txt" /\ UNCHANGED <<cfg, written, stale, exit, reported>>
 Done == pc = "done" /\ End(0)
 
-Init == cfg \in Configs /\ pc = "args" /\ written = {} /\ printed = FALSE /\ exit = -1 /\ reported = FALSE
+Init == cfg \in Configs /\ pc = "args" /\ written = {} /\ stale = StaleAtStart(cfg) /\ printed = FALSE /\ exit = -1 /\ reported = FALSE
 Next == Args \/ License \/ Comps \/ Factors \/ Save("oc", "of") \/ Save("of", "eval") \/ Eval
         \/ Save("json", "xml") \/ Save("xml", "print") \/ Print \/ Save("txt", "done") \/ Done
 Spec == Init /\ [][Next]_vars
@@ -78,6 +83,9 @@ TerminalOk == ~Running => exit \in DeliberateCodes /\ (exit # 0 => reported)
 NoResultWhenRefused == exit \in {1, 64, 65} => written \cap {"json", "xml", "txt"} = {} /\ ~printed
 \* a result file is only written after a successful evaluation, and the report is printed before --txt
 ResultsAfterEval == (written \cap {"json", "xml", "txt"} # {} => HasComponents(cfg)) /\ ("txt" \in written => printed)
+\* C17: what a run leaves in an output file is the document of THAT run - a written file holds nothing of an
+\* earlier run, and a path the run did not write is as it was
+FreshWhenWritten == written \cap stale = {} /\ stale = StaleAtStart(cfg) \ written
 \* the machine always terminates: no stage is left without a successor
 Progress == Running => ENABLED Next
 
